@@ -136,8 +136,9 @@ theorem raw_store (arr : List Nat) (lens : Lens) (h v : Nat) (rest : List Nat) (
     ∃ out, Decode_store (h :: rest) v arr = some out ∧ out.localMesgNum = h &&& localMesgNumMask ∧
       RawLensRep out.lenMesgs ((h &&& localMesgNumMask, v) :: lens) := by
   have hk : h &&& 15 < 16 := Nat.lt_of_le_of_lt Nat.and_le_right (by decide)
+  have e : 15 &&& h = h &&& 15 := Nat.and_comm _ _
   refine ⟨⟨arr.set (h &&& 15) v, h &&& 15⟩, ?_, rfl, ?_, ?_⟩
-  · simp [Decode_store, Go.idxI, Go.setIdx, hr.1, hk]
+  · simp [Decode_store, Go.idxI, Go.setIdx, hr.1, hk, e]
   · simp [hr.1]
   · intro i hi
     simp only [localMesgNumMask, Lens.get, List.find?_cons]
